@@ -1,10 +1,11 @@
-from . import tables, c15, traces, c12, c04, c06, c09
+from . import tables, c15, traces, c12, c04, c06, c09, c07
 
 REGISTRY = {
     'C01': traces.C01,
     'C02': traces.C02,
     'C03': traces.C03,
     'C09': c09.C09,
+    'C10': traces.C10,
     'C11': traces.C11,
     'C12': c12.C12,
     'C13': traces.C13,
@@ -12,6 +13,7 @@ REGISTRY = {
     'DEV': traces.DevAll,
     'C04': c04.C04,
     'C06': c06.C06,
+    'C07': c07.C07,
     'C08': tables.C08,
     'C15': c15.C15,
     'C16': tables.C16,
